@@ -46,7 +46,7 @@ def has_fact(fn, prog, bb, pred):
 
 def bool_true(callee_rx, truth=True):
     rx = re.compile(callee_rx)
-    return lambda f: f.kind == "boolcall" and f.truth == truth and rx.search(f.call.callee or "")
+    return lambda f: f.kind == "boolcall" and f.truth == truth and (rx.search(f.call.callee or "") or rx.search(f.call.decl or ""))
 
 
 def variant_of_call(callee_rx, variant):
@@ -57,7 +57,7 @@ def variant_of_call(callee_rx, variant):
             return False
         if any(pr[0] in ("dc",) for st in f.steps for pr in (st[2] if len(st) > 2 else [])):
             return False
-        return rx.search(f.steps[-1][1].callee or "") is not None
+        return rx.search(f.steps[-1][1].callee or "") is not None or rx.search(f.steps[-1][1].decl or "") is not None
     return pred
 
 
